@@ -504,3 +504,7 @@ func (p *Prog) IsAddressTaken(fn *ssa.Function) bool {
 	}
 	return p.addrTaken[fn]
 }
+
+// NormRecv spells a function name without the receiver's pointer star, so that comparisons and look-ups do not depend
+// on whether a method has a pointer or a value receiver ("(*pkg.T).M" and "(pkg.T).M" compare equal).
+func NormRecv(name string) string { return strings.ReplaceAll(name, "(*", "(") }
